@@ -488,8 +488,18 @@ func c20Random1(s Src, tier string) *Case {
 		roles = append(roles, d)
 	}
 	cs := c20Case(pool, cfgs, roles, "rnd")
+	hasValid := false
+	for _, l := range pool {
+		if strings.HasPrefix(l.name, "valid") {
+			hasValid = true
+		}
+	}
 	for i := range cs.Runs {
 		cs.Runs[i].Cfg.TTY = tty // the fresh sessions see the same kind of streams
+		if hasValid && cs.Runs[i].Cfg.Budget < 30000000 {
+			// a valid-by-construction program may nest counted loops and calls a few levels deep
+			cs.Runs[i].Cfg.Budget = 30000000
+		}
 	}
 	if eio {
 		// EIO at the start of line k's text: responses before k are judged
